@@ -594,6 +594,12 @@ def rule_H6(ctx):
     if f is None:
         raise AnalysisError('anchor vanished: Bits.tofile')
     env = {}
+    # module-level (and class-level) constants the function may name
+    for nm, v in list(m.modglobals.get(f.mod, {}).items()) + list(m.classes['Bits'].attrs.items()):
+        try:
+            env[nm] = fold(v, env)
+        except (ValueError, TypeError, AttributeError):
+            pass
     for n in own_walk(f.node):
         if isinstance(n, ast.Assign) and len(n.targets) == 1 and isinstance(n.targets[0], ast.Name):
             try:
